@@ -366,6 +366,8 @@ class WFSA:
             new.add_I(i, self.start[i] * V[i])
             new.add_F(i, V[i] ** (-1) * self.stop[i])
             for a, j, w in self.arcs(i):
+                if V[j] == self.R.zero:
+                    continue  # arcs into dead states carry no weight
                 new.add_arc(i, a, j, V[i] ** (-1) * w * V[j])
         return new
 
@@ -388,8 +390,8 @@ class WFSA:
         )
 
     def accessible(self):
-        stack = list(self.start)
-        visited = set(self.start)
+        stack = [q for q, _ in self.I]  # initial states with non-zero weight
+        visited = set(stack)
         while stack:
             P = stack.pop()
             for _, Q, _ in self.arcs(P):
